@@ -158,6 +158,8 @@ class Fn(Stmts):
             if lty == rty and lty in (SEV, CERT) and op in ('GtE', 'Gt', 'LtE', 'Lt'):
                 return f'(decide ({atom(lt)}.rank {dict(GtE="≥", Gt=">", LtE="≤", Lt="<")[op]} {atom(rt)}.rank))', BOOL
             bad(e, f'comparison {op} between {lty} and {rty}')
+        if isinstance(e, ast.UnaryOp) and isinstance(e.op, ast.Not):
+            return f'(!{self.cond(e.operand, env, B)})', BOOL
         if isinstance(e, ast.Subscript):
             return self.subscript(e, env, B)
         if isinstance(e, ast.Call):
